@@ -84,7 +84,7 @@ def run_dec(ctx, binp, casep, tracep, timeout=900):
                 last_begin = json.loads(ln)["i"]
             elif '"op":"stopped"' in ln[:200]:
                 st = json.loads(ln)
-                vf.log("  driver stopped after %d panics / gross over-allocations; %d cases not run" % (25, st["left"]))
+                vf.log("  driver stopped after %d panics / gross over-allocations; %d cases not run" % (10, st["left"]))
                 ctx.cov["actions"]["cases_not_run"] = st["left"]
                 stopped = True
             else:
